@@ -430,6 +430,7 @@ MANIFEST_META = {
                   "number (Python or numpy), a list or tuple, or a (nested) zero-argument callable, and compared with the explicit "
                   "scalar multivector / element-wise / evaluated forms in the same operand order; array-valued coefficients of "
                   "several trailing shapes (one ndarray or a list of arrays) are checked to act element-wise under generated index "
-                  "expressions, and assignment through a multivector is compared with a numpy model.",
+                  "expressions, and assignment through a multivector is compared with a numpy model."
+                  " After X[idx] = Y, overwriting Y must leave X unchanged (the assignment copies).",
     "level_note": "Compares kingdon with itself under the stated relations (numpy trusted). d<=3.",
 }
